@@ -469,7 +469,7 @@ func init() {
 		c10Probes(r)
 	}
 	props["C15"] = func(r *Result, d *drv.Driver, tier string, seed int64, replay string) {
-		r.Rule = sessRule("C15 oracle: with ReadTimeout every wait for a request is immediately preceded by a fresh read deadline, with WriteTimeout every response by a fresh write deadline, with zero timeouts no deadline is ever set; a peer stalling inside a request is disconnected when the real deadline (60 ms) expires; plus the same rules observed on real TLS connections (handshake included) for every zero/non-zero combination of the two timeouts, on the server side and on the Client side (incl. a 32 MiB request whose writing takes longer than the Client's ReadTimeout while the response follows at once); plus peers falling silent before the first request, at a message boundary after 1..3 exchanges, and inside the next item header or body (plain and TLS): the server must hang up by itself at the deadline; a request trickling in with every gap below ReadTimeout but the whole above it is not answered.")
+		r.Rule = sessRule("C15 oracle: with ReadTimeout every wait for a request is immediately preceded by a fresh read deadline, with WriteTimeout every response by a fresh write deadline, with zero timeouts no deadline is ever set; a peer stalling inside a request is disconnected when the real deadline (60 ms) expires; plus the same rules observed on real TLS connections (handshake included) for every zero/non-zero combination of the two timeouts, on the server side and on the Client side (incl. a 32 MiB request whose writing takes longer than the Client's ReadTimeout while the response follows at once); plus peers falling silent before the first request, at a message boundary after 1..3 exchanges, and inside the next item header or body (plain and TLS): the server must hang up by itself at the deadline; a request trickling in with every gap below ReadTimeout but the whole above it is not answered; a peer that stops reading so that the response cannot be written is disconnected at the write deadline (whatever ReadTimeout is) and its queued request is not processed.")
 		b, p := sizes(tier)
 		sessionCorrespondence(r, d, seed*31+15, b, p, scriptOpts{maxArr: 8, maxItems: 2, allowStall: true}, 60*time.Millisecond, oracleC15)
 		c15TLS(r, d)
@@ -478,6 +478,7 @@ func init() {
 		c15Partial(r)
 		c15Idle(r)
 		c15Trickle(r)
+		c15StalledWrite(r)
 		c15SlowHandshake(r)
 	}
 }
